@@ -1,6 +1,8 @@
 package main
 
 import (
+	"go/token"
+
 	"golang.org/x/tools/go/ssa"
 )
 
@@ -144,6 +146,109 @@ func storedInto(addr ssa.Value, depth int) []ssa.Value {
 				out = append(out, storedInto(x, depth-1)...)
 			}
 		}
+	}
+	return out
+}
+
+// resolveFuncValue finds the functions a called function value may denote when it is a local
+// closure: a MakeClosure, a local variable assigned closures, or a captured such variable.
+func resolveFuncValue(v ssa.Value) []*ssa.Function {
+	var out []*ssa.Function
+	seen := map[ssa.Value]bool{}
+	var walk func(v ssa.Value, d int)
+	fromCell := func(cell ssa.Value, d int) {
+		switch c := cell.(type) {
+		case *ssa.Alloc:
+			for _, sv := range storesTo(c) {
+				walk(sv, d-1)
+			}
+		case *ssa.FreeVar:
+			fn := c.Parent()
+			par := fn.Parent()
+			if par == nil {
+				return
+			}
+			for i, fv := range fn.FreeVars {
+				if fv != c {
+					continue
+				}
+				eachInstr(par, func(in ssa.Instruction) {
+					if mc, ok := in.(*ssa.MakeClosure); ok && mc.Fn == fn && i < len(mc.Bindings) {
+						b := mc.Bindings[i]
+						switch bb := b.(type) {
+						case *ssa.Alloc:
+							for _, sv := range storesTo(bb) {
+								walk(sv, d-1)
+							}
+						case *ssa.FreeVar:
+							// captured from a further enclosing function
+							for _, sv := range resolveCell(bb, d-1) {
+								walk(sv, d-1)
+							}
+						default:
+							walk(b, d-1)
+						}
+					}
+				})
+			}
+		}
+	}
+	walk = func(v ssa.Value, d int) {
+		if v == nil || seen[v] || d < 0 {
+			return
+		}
+		seen[v] = true
+		switch x := v.(type) {
+		case *ssa.Function:
+			out = append(out, x)
+		case *ssa.MakeClosure:
+			out = append(out, x.Fn.(*ssa.Function))
+		case *ssa.Phi:
+			for _, e := range x.Edges {
+				walk(e, d-1)
+			}
+		case *ssa.ChangeType:
+			walk(x.X, d)
+		case *ssa.UnOp:
+			if x.Op == token.MUL {
+				fromCell(x.X, d)
+			}
+		case *ssa.FreeVar:
+			// captured by value
+			fromCell(x, d)
+		}
+	}
+	walk(v, 8)
+	return out
+}
+
+// resolveCell returns the values stored into the variable a free variable refers to.
+func resolveCell(fv *ssa.FreeVar, d int) []ssa.Value {
+	if d < 0 {
+		return nil
+	}
+	fn := fv.Parent()
+	par := fn.Parent()
+	if par == nil {
+		return nil
+	}
+	var out []ssa.Value
+	for i, x := range fn.FreeVars {
+		if x != fv {
+			continue
+		}
+		eachInstr(par, func(in ssa.Instruction) {
+			if mc, ok := in.(*ssa.MakeClosure); ok && mc.Fn == fn && i < len(mc.Bindings) {
+				switch bb := mc.Bindings[i].(type) {
+				case *ssa.Alloc:
+					out = append(out, storesTo(bb)...)
+				case *ssa.FreeVar:
+					out = append(out, resolveCell(bb, d-1)...)
+				default:
+					out = append(out, bb)
+				}
+			}
+		})
 	}
 	return out
 }
